@@ -52,6 +52,14 @@ fn check(case: &Case) -> PResult {
         (Err(e), false) => fail!(format!("try_from_slice_wrong_error/{tag}"), "{what}: expected MismatchedLength, got {e:?}"),
     }
 
+    if n == k {
+        let r = no_panic(&format!("unsafe_from_seqslice_panic/{tag}"), &what, || kcall(id, k, st, &KReq::UnsafeFrom(case.s.clone())))?;
+        let i = want_info(r, "unsafe_from_seqslice")?;
+        expect_info(&i, codes, id, k, &format!("unsafe_from_seqslice/{tag}"), &format!("Kmer::unsafe_from_seqslice for {what}"))?;
+        if let Ok(b) = &built {
+            ensure!(i.bs == b.bs && i.hash == b.hash, format!("unsafe_from_seqslice_vs_try_from/{tag}"), "unsafe_from_seqslice and try_from disagree for {what}");
+        }
+    }
     // construction from text
     let bytes = case.text.as_bytes();
     let parsed = m.parse(bytes);
